@@ -351,6 +351,63 @@ func init() {
 	})
 }
 
+// encJobs enumerates (file type, hosted message, field subset, byte order,
+// header CRC) instances for the encoder harness.
+func encJobs(tier string, meta map[string]int) []Job {
+	var js []Job
+	add := func(ti, gmn, fi, fj, two, big, crc int) {
+		js = append(js, job("fit", "H05", "ti", ti, "gmn", gmn, "fi", fi, "fj", fj, "two", two, "big", big, "crc", crc))
+	}
+	slot := func(ti, gmn int) {
+		nf := meta[fmt.Sprintf("nf_%d", gmn)]
+		for fi := 0; fi < nf; fi++ {
+			for big := 0; big <= 1; big++ {
+				add(ti, gmn, fi, -1, 0, big, (fi+big)%2)
+			}
+			if fi+1 < nf {
+				add(ti, gmn, fi, fi+1, 0, fi%2, 1)       // adjacent pair in one message
+				add(ti, gmn, fi, fi+1, 1, (fi+1)%2, fi%2) // two messages, different fields: union definition
+			}
+		}
+		for big := 0; big <= 1; big++ {
+			add(ti, gmn, -1, -1, 0, big, 1-big) // every field set
+		}
+	}
+	for ti := 0; ti < 17; ti++ {
+		for i := 0; i < meta[fmt.Sprintf("nhost_%d", ti)]; i++ {
+			slot(ti, meta[fmt.Sprintf("host_%d_%d", ti, i)])
+		}
+		slot(ti, 0) // file_id in every file type
+	}
+	slot(3, 49)  // file_creator
+	slot(3, 162) // timestamp_correlation
+	return js
+}
+
+func init() {
+	encBounds := "one message (or two, for the union-definition case) per File; per instance one struct field, one adjacent pair, or every field set to arbitrary non-invalid values (integers over their full width, valid coordinates, whole-second times in [epoch+1, epoch+2^32-2], two-character ASCII strings, arrays of 1-2 elements); instances: 17 file types x every hosted message (table read from the tree) x every field x both byte orders x headers with and without CRC"
+	reg(&CheckDef{
+		ID:        "C05",
+		Meta:      "fit.Hmeta",
+		Jobs:      encJobs,
+		MustReach: []string{"C05.header.data-size", "C05.header.crc", "C05.file.crc", "C05.def.size-multiple", "C05.data.defined-before", "C05.stream.exact", "C05.wire.value", "C05.wire.string", "C05.file.header-crc-updated", "C05.file.crc-updated", "C05.records.count", "encoded", "C04.encode-output-passes-checkintegrity"},
+		Bounds:    map[string]interface{}{"quick": encBounds, "thorough": encBounds},
+		Outside: []string{"Files with more than two messages or with several populated container slots at once", "strings longer than two characters and non-ASCII strings; arrays longer than two elements",
+			"the independent parser compares CRCs with dyncrc16.Checksum, which C14 shows to be CRC-16/ARC"},
+		Assumptions: append([]string{"M-reflect, M-binary-write (encoding/binary.Write modelled as fixed-size little/big-endian serialisation by dynamic type; bytes.Buffer executed from the standard library's SSA)"}, commonAssumptions...),
+	})
+	reg(&CheckDef{
+		ID:        "C06",
+		Meta:      "fit.Hmeta",
+		Jobs:      encJobs,
+		MustReach: []string{"C06.decode.succeeds", "C06.file-type", "C06.message-count", "C06.field.value", "C06.field.time", "C06.field.coordinate", "C06.field.array-prefix", "C06.no-other-messages", "roundtrip"},
+		Bounds:    map[string]interface{}{"quick": encBounds, "thorough": encBounds},
+		Outside: []string{"Files with more than two messages; local timestamps in a non-UTC zone; strings longer than two characters; arrays longer than two elements",
+			"fields that are component destinations are compared under C18's rule, not here"},
+		Assumptions: append([]string{"M-reflect, M-binary-write"}, commonAssumptions...),
+	})
+}
+
 // ---------------------------------------------------------------- mutants
 
 type Mutant struct {
